@@ -244,6 +244,12 @@ def funds_visible(ops, impl):
             continue
         if h in READ_OPS or h in ("trace", "rawhash", "bind", "bind2", "bind2x", "bindc", "section", "nondet"):
             continue
+        if h == "h-send":
+            # Executor::send_tokens is BankMsg::Send through the router: the stock bank rejects a transfer that carries no
+            # positive amount ("carries no positive amount, fails and changes nothing"); answering Ok means no module saw it
+            t = op.split(" ")
+            if len(t) == 4 and (t[3] == "-" or all(re.fullmatch(r"0+:\w+", c) for c in t[3].split(","))) and out.startswith("ok"):
+                return "op %d `%s`: a transfer without any positive amount was answered Ok (the bank module rejects it)" % (n, op[:160])
         cur = bank.pop(app, None)      # any other op may change balances: the snapshot is used for this op only
         if cur is None or n + 1 >= len(ops) or ops[n + 1] != "trace" or not impl[n + 1].startswith("trace["):
             continue
@@ -368,6 +374,81 @@ def pred_c14_wasm(ops, impl):
     import pred_wasm
     for n, (op, out) in enumerate(zip(ops, impl)):
         h = op.split(" ", 1)[0]
-        if out == "panic" and (h in TX_OPS or h in ("block", "next-block", "sudo-slash")):
+        # (a contract packaged over `Empty` that emits CosmosMsg::Custom panics in the lifting code — reading R3, nothing to do
+        # with staking; such transactions are not judged here)
+        if out == "panic" and (h in TX_OPS or h in ("block", "next-block", "sudo-slash")) and "(ext custom" not in op:
             return "op %d `%s` made the simulator panic" % (n, op[:200])
     return pred_wasm.pred_c01(ops, impl)
+
+
+def later_reads_see_writes(ops, impl):
+    """C10 "a query issued by a contract while it executes observes the effects of everything that completed earlier in the same
+    transaction": in a transaction in which nothing failed anywhere (result ok, no reply received an error — so nothing was rolled
+    back) the state is the sequential effect of all bodies in invocation order (the trace). Every own-storage read `rd K` and every
+    raw query `qraw X K` of a key written earlier in the same transaction must answer accordingly: `rd` sees the contract's own
+    in-flight writes, a query sees the state at the start of the querying body. Keys not yet written in the transaction are skipped."""
+    from pred_wasm import scripts_of_op
+    b = binds_of(ops)
+    for n, (op, out) in enumerate(zip(ops, impl)):
+        h = op.split(" ", 1)[0]
+        if h not in TX_OPS or not out.startswith("ok") or n + 1 >= len(ops) or ops[n + 1] != "trace":
+            continue
+        tr = impl[n + 1]
+        if not tr.startswith("trace[") or re.search(r" reply:\d+:err", tr):
+            continue
+        items = parse_sx(op)
+        if not items:
+            continue
+        by_hash = {}
+        for sc in scripts_of_op(items):
+            by_hash.setdefault(fnv(print_sx(sc)), sc)
+        store = {}
+        for e in [x for x in tr[6:-1].split(" || ") if x]:
+            head, _, notes = e.partition("|")
+            t = head.split(" ")
+            hsh = head.rsplit("#", 1)[-1] if "#" in head else None
+            sc = by_hash.get(hsh)
+            if len(t) < 2 or sc is None:
+                store = None      # an invocation whose script is unknown: writes unknown from here on
+                break
+            callee = t[0]
+            pre = dict(store)
+            rds = [x[3:] for x in notes.split(";") if x.startswith("rd=")]
+            qrs = [x[5:] for x in notes.split(";") if x.startswith("qraw=")]
+            ri = qi = 0
+            for a in sc:
+                if not (isinstance(a, list) and a and isinstance(a[0], str)):
+                    continue
+                if a[0] in ("w", "rm", "rd") and len(a) >= 2 and isinstance(a[1], str):
+                    k = unhex(a[1])
+                    if k is None:
+                        store = None
+                        break
+                    if a[0] == "w":
+                        v = unhex(a[2]) if len(a) >= 3 and isinstance(a[2], str) else None
+                        if v is None:
+                            store = None
+                            break
+                        store[(callee, k)] = v
+                    elif a[0] == "rm":
+                        store[(callee, k)] = None
+                    else:
+                        if ri < len(rds) and (callee, k) in store:
+                            want = "none" if store[(callee, k)] is None else hexs(store[(callee, k)])
+                            if rds[ri] != want:
+                                return ("op %d `%s`: nothing failed in this transaction, yet %s reading its own key %s gets %s where the "
+                                        "writes made so far in the transaction give %s" % (n, op[:160], callee, a[1], rds[ri], want))
+                        ri += 1
+                elif a[0] == "qraw" and len(a) >= 3 and isinstance(a[1], str) and isinstance(a[2], str):
+                    k = unhex(a[2])
+                    who = b.get(a[1], a[1])
+                    if k is not None and qi < len(qrs) and (who, k) in pre and qrs[qi] != "err":
+                        v = pre[(who, k)]
+                        want = "-" if not v else hexs(v)
+                        if qrs[qi] != want:
+                            return ("op %d `%s`: nothing failed in this transaction, yet the raw query of %s for %s/%s answers %s where the "
+                                    "writes completed earlier in the transaction give %s" % (n, op[:160], callee, a[1], a[2], qrs[qi], want))
+                    qi += 1
+            if store is None:
+                break
+    return None
